@@ -36,7 +36,7 @@ def check(ctx):
     ctx.rule("R04.4", "a constant shift of mu multiplies psi' by a global phase and leaves |psi'|^2 unchanged", 2)
     ctx.rule("R04.5", "covariant operators are written only by MeshOperators.__init__/set_link_exponents; the solver passes A_applied (+A_induced)", 3)
     ctx.rule("R04.7", "the vector potential itself (gauge dependent) reaches the physics only through the link variables and through "
-                      "differences in time: no other use of the applied/total potential or of MeshOperators.link_exponents", 8)
+                      "differences in time: no other use of the applied/total potential or of MeshOperators.link_exponents", 2)
     ctx.rule("R04.6", "the operators acting on psi always carry complex link variables: no caller builds them without "
                       "link variables (a gauge-equivalent non-zero potential would take the complex path)", 3)
     f_set = repo.func(OPS, "MeshOperators.set_link_exponents")
@@ -123,21 +123,29 @@ def check(ctx):
            message=f"covariant operators are also written by {extra}",
            consequence="the vector potential can reach the operators without going through the link-variable code")
     fu = repo.func(SOLVER, "TDGLSolver.update")
-    env = repo.local_types(fu)
-    from .c10 import update_roles
-    from ..src import rename_id
-    induced, applied = update_roles(fu.node)
-    args = []
-    for n in own_nodes(fu.node):
-        if isinstance(n, ast.Call):
-            r = repo.resolve_call(fu, n, env)
-            if getattr(r, "fq", None) == f"{OPS}:MeshOperators.set_link_exponents":
-                # locals named by role: APPLIED = what is remembered as self.current_A_applied, INDUCED = the screening iterate
-                args.append(rename_id(rename_id(norm(n.args[0]), applied, "APPLIED"), induced, "INDUCED") if n.args else "?")
-    ok = sorted(args) in (sorted(["APPLIED", "APPLIED + INDUCED"]), sorted(["APPLIED", "INDUCED + APPLIED"]))
-    ctx.ob("R04.5", "solver hands set_link_exponents the applied (+ induced) potential", ok, detail=args,
+    from ..update_trace import all_traces
+    from ..smallstep import Opaque as SO, render
+
+    def terms(v):
+        if isinstance(v, SO) and v.parts and v.parts[0] == "Add":
+            return terms(v.parts[1]) + terms(v.parts[2])
+        return [render(v)]
+    bad = []
+    n_calls = 0
+    for t in all_traces(repo):
+        sc = t.scenario
+        applied_now = "A_new" if sc["dynamic_A"] != "off" else "self.current_A_applied"
+        for e in t.calls("set_link_exponents"):
+            n_calls += 1
+            ts = terms(e.args[0]) if e.args else ["?"]
+            rest = [x for x in ts if x != applied_now]
+            if applied_now not in ts or len(ts) > 2 or any(not (x == "induced_vector_potential" or x.startswith("A#")) for x in rest):
+                bad.append(f"[{', '.join(f'{k}={v}' for k, v in sc.items() if k != 'max_iterations')}] set_link_exponents({' + '.join(ts)})")
+    if n_calls < 2:
+        raise AnalysisError("update() never calls set_link_exponents in any scenario")
+    ctx.ob("R04.5", "solver hands set_link_exponents the applied (+ induced) potential", not bad, detail=bad[:4],
            where=fu.fq, construct="set_link_exponents arguments", loc=loc(fu, fu.node),
-           message=f"set_link_exponents is called with {args}",
+           message=f"set_link_exponents is called with {bad[:1]}",
            consequence="the operators are built for a different vector potential than the one recorded")
     from .c10 import link_callers
     link_callers(ctx, "R04.6")
@@ -173,62 +181,56 @@ def potential_uses(ctx):
                consequence="a quantity computed from it changes under A -> A + grad chi: observables (or when an iteration stops) depend on the gauge")
     if not readers:
         ctx.ob("R04.7", "MeshOperators.link_exponents is read by MeshOperators only", True, where=OPS, construct="readers of link_exponents")
-    # (b) uses of the applied potential in update()
+    # (b) uses of the applied potential in update(), on its traces (pvs/update_trace.py): the symbols that carry the applied
+    # potential (the new value, the previous value handed in, the remembered baseline) may appear in what update() does only as
+    # arguments of set_link_exponents, inside the difference of two of them, in the exact change test, in the store to the
+    # baseline and among the returned state
     fu = repo.func(SOLVER, "TDGLSolver.update")
-    fn = fu.node
-    pm = parent_map(fn)
-    induced, applied = update_roles(fn)
-    # names holding a value of the applied potential: `applied`, and every name bound by plain assignment from one of them,
-    # from self.current_A_applied or from the `applied_vector_potential` parameter
-    pot = {applied}
-    changed = True
-    while changed:
-        changed = False
-        for n in own_nodes(fn):
-            if isinstance(n, ast.Assign) and (
-                    (isinstance(n.value, ast.Name) and (n.value.id in pot or n.value.id == "applied_vector_potential"))
-                    or norm(n.value) == "self.current_A_applied"
-                    or (isinstance(n.value, ast.Call) and norm(n.value.func) == "self.update_applied_vector_potential")):
-                for t in n.targets:
-                    if isinstance(t, ast.Name) and t.id not in pot:
-                        pot.add(t.id)
-                        changed = True
-    pot.add("applied_vector_potential")
+    from ..update_trace import all_traces
+    from ..smallstep import Opaque as SO, render
+    POT = ("A_new", "A_prev", "self.current_A_applied", "applied_vector_potential")
 
-    def is_pot(e):
-        return (isinstance(e, ast.Name) and e.id in pot) or norm(e) == "self.current_A_applied"
+    def leaks(v, out, under_diff=False):
+        if isinstance(v, SO):
+            if v.text in POT and (v.parts is None or v.parts[0] == "attr"):
+                if not under_diff:
+                    out.append(v.text)
+                return
+            if v.parts:
+                if v.parts[0] == "Sub" and all(isinstance(x, SO) and x.text in POT for x in v.parts[1:3]):
+                    return                      # a time difference of the potential is gauge invariant up to d(chi)/dt (documented)
+                for x in v.parts[1:]:
+                    leaks(x, out, under_diff)
+        elif isinstance(v, (list, tuple)):
+            for x in v:
+                leaks(x, out, under_diff)
+        elif isinstance(v, dict):
+            for x in v.values():
+                leaks(x, out, under_diff)
+    found = {}
     uses = 0
-    for n in own_nodes(fn):
-        if not (isinstance(n, (ast.Name, ast.Attribute)) and isinstance(n.ctx, ast.Load) and is_pot(n)):
-            continue
-        if isinstance(n, ast.Name) and id(n) in pm and isinstance(pm[id(n)][0], ast.Attribute) and norm(pm[id(n)][0]) == "self.current_A_applied":
-            continue
-        par = pm[id(n)][0]
-        uses += 1
-        ok = False
-        why = ""
-        if isinstance(par, ast.Assign) and par.value is n:
-            ok, why = True, "stored / renamed"
-        elif isinstance(par, ast.BinOp) and isinstance(par.op, ast.Sub) and is_pot(par.left) and is_pot(par.right):
-            ok, why = True, "difference of two potentials (dA)"
-        elif isinstance(par, ast.BinOp) and isinstance(par.op, ast.Add) and {norm(par.left), norm(par.right)} & {induced}:
-            g = pm[id(par)][0]
-            ok = isinstance(g, ast.Call) and isinstance(g.func, ast.Attribute) and g.func.attr == "set_link_exponents"
-            why = "applied + induced -> set_link_exponents"
-        elif isinstance(par, ast.Call) and isinstance(par.func, ast.Attribute) and par.func.attr == "set_link_exponents":
-            ok, why = True, "-> set_link_exponents"
-        elif isinstance(par, ast.Call) and isinstance(par.func, ast.Attribute) and par.func.attr in ("array_equal", "array_equiv"):
-            ok, why = True, "exact change test"
-        elif isinstance(par, ast.Call) and isinstance(par.func, ast.Attribute) and par.func.attr == "append" and norm(par.func.value) != "running_state":
-            ok, why = True, "returned as part of the state"
-        elif isinstance(par, ast.Compare) and all(isinstance(c, ast.Constant) and c.value is None for c in par.comparators):
-            ok, why = True, "None test"
-        elif isinstance(par, ast.Assert):
-            ok, why = True, "assert"
-        ctx.ob("R04.7", f"update(): L{n.lineno} `{norm(par)[:70]}` ({why or 'unclassified use'})", ok, where=fu.fq,
-               construct=f"use of the applied vector potential in `{norm(par)[:60]}`", loc=loc(fu, n),
-               message=f"the applied vector potential `{norm(n)}` is used in `{norm(par)[:80]}`, which is neither the link variables, a time "
+    for t in all_traces(repo):
+        for e in t.events:
+            short = e.name.split(".")[-1]
+            if e.kind == "call" and short in ("set_link_exponents", "array_equal", "array_equiv"):
+                uses += 1
+                continue
+            if e.kind == "store" and e.name == "self.current_A_applied":
+                uses += 1
+                continue
+            out = []
+            leaks(e.args if e.kind == "call" else e.value, out)
+            if e.kind == "call":
+                leaks(e.kwargs, out)
+            if out:
+                found.setdefault(repr(e)[:120], sorted(set(out)))
+    for what, syms in sorted(found.items()):
+        ctx.ob("R04.7", f"update(): `{what}` uses the applied potential itself", False, where=fu.fq,
+               construct=f"use of the applied vector potential in `{what[:60]}`", loc=loc(fu, fu.node),
+               message=f"the applied vector potential {syms} is used in `{what[:80]}`, which is neither the link variables, a time "
                        f"difference, the exact change test nor bookkeeping",
                consequence="a gauge-dependent number enters the step: observables change under A -> A + grad chi")
+    ctx.ob("R04.7", "update(): the applied potential appears only in set_link_exponents, time differences, the exact change test and bookkeeping",
+           not found, detail={"allowed_uses_seen": uses}, where=fu.fq, construct="uses of the applied potential in update()")
     if uses < 6:
-        raise AnalysisError(f"only {uses} uses of the applied potential found in update()")
+        raise AnalysisError(f"only {uses} uses of the applied potential found in the traces of update()")
